@@ -2439,14 +2439,14 @@ impl<'a> CodeGenerator<'a> {
                     defined_data_types.insert(data_type_name.clone(), 1);
 
                     let var_then = AirTree::call(
-                        AirTree::local_var("then_delayed", Type::void()),
+                        AirTree::local_var("__then_delayed", Type::void()),
                         Type::void(),
                         vec![],
                     );
 
                     let otherwise_delayed = otherwise
                         .as_ref()
-                        .map(|_| AirTree::local_var("otherwise_delayed", Type::void()));
+                        .map(|_| AirTree::local_var("__otherwise_delayed", Type::void()));
 
                     let is_never = data_type.is_never();
 
@@ -2578,11 +2578,11 @@ impl<'a> CodeGenerator<'a> {
                         params: if otherwise.is_some() {
                             vec![
                                 "__param_0".to_string(),
-                                "then_delayed".to_string(),
-                                "otherwise_delayed".to_string(),
+                                "__then_delayed".to_string(),
+                                "__otherwise_delayed".to_string(),
                             ]
                         } else {
-                            vec!["__param_0".to_string(), "then_delayed".to_string()]
+                            vec!["__param_0".to_string(), "__then_delayed".to_string()]
                         },
                     };
 
